@@ -16,6 +16,13 @@ class StateMixin:
             self.user_state = ['assigned', j]
         if big:
             self.user_state = ['big', 's' * big]
+        if ending == 'raise-unpicklable':
+            import threading
+            raise ValueError('carries a lock', threading.Lock())
+        if kwargs.get('last') == 'none':
+            self.user_state = None          # the last assignment resets the state
+        elif kwargs.get('last') == 'falsy':
+            self.user_state = 0
         if ending == 'raise':
             raise ValueError('a', 1)
         if ending == 'spin':
